@@ -78,6 +78,14 @@ func (e *Exec) evalClause(text string, env *SpecEnv) (Term, error) {
 					return True, nil
 				}
 			}
+			if len(terms) > 0 && strings.Contains(err.Error(), "unknown identifier") && env.lenient && env.knownName != nil {
+				// the conclusion names something that is no local of this function at all (the local
+				// was renamed or moved into a helper): the contract is stale, not violated
+				name := err.Error()[strings.LastIndex(err.Error(), " ")+1:]
+				if !env.knownName(name) {
+					return Term{}, fmt.Errorf("%q: stale clause: unknown identifier %s", p, name)
+				}
+			}
 			if len(terms) > 0 && strings.Contains(err.Error(), "unknown identifier") && env.lenient {
 				// the conclusion names a local that does not exist (yet) at this program point:
 				// the clause then requires its premises to be false here
